@@ -20,7 +20,7 @@ TInit == /\ train = [c0 |-> 0, c1 |-> 0, g16 |-> 0] /\ net = <<>> /\ route = <<>
          /\ phase = "trace" /\ hist = <<>>
          /\ l = 1 /\ ref = <<>> /\ viol = <<>>
          /\ stats = [cases |-> 0, extends |-> 0, rejected_calls |-> 0, finals |-> 0, partitions_equal |-> 0,
-                     drift |-> 0, skipped |-> 0, real_scale |-> 0]
+                     drift |-> 0, skipped |-> 0, real_scale |-> 0, harness_err |-> 0]
 
 Names(checks) == LET Fl == SelectSeq(checks, LAMBDA c : ~c[2]) IN [i \in 1..Len(Fl) |-> Fl[i][1]]
 Report(names) == viol' = viol \o [i \in 1..Len(names) |-> <<l, Rec[l].case, names[i]>>]
@@ -82,9 +82,10 @@ Panic == /\ Rec[l].ev \in {"panic", "abort", "timeout"}
          /\ Report(<<"NoPanic">>)
          /\ UNCHANGED <<case, done, ok, prof, ref, stats>>
 
+(* a harness error is not a verdict on the property: it is counted and turned into a tool error by the driver *)
 End == /\ Rec[l].ev = "end"
-       /\ IF Rec[l].result = "harness_err" THEN Report(<<"HarnessOk">>) ELSE UNCHANGED viol
-       /\ UNCHANGED <<case, done, ok, prof, ref, stats>>
+       /\ stats' = [stats EXCEPT !.harness_err = @ + (IF Rec[l].result = "harness_err" THEN 1 ELSE 0)]
+       /\ UNCHANGED <<case, done, ok, prof, ref, viol>>
 
 TNext == /\ l <= Len(Rec) /\ l' = l + 1 /\ UNCHANGED <<phase, hist>>
          /\ (Begin \/ Source \/ Extend1 \/ Final \/ Skipped \/ Panic \/ End)
